@@ -54,6 +54,94 @@ func sgrScan(b []byte) (plain string, verdict string) {
 	return sb.String(), verdict
 }
 
+// hygieneClass names the cause of a hygiene failure as narrowly as the input allows.  A first
+// line with markup characters goes through the HTML translator (hedzr/is term/color): the cause is
+// attributed by re-running the record with the suspected bytes replaced.
+func hygieneClass(rec EncRec) string {
+	first, _, _ := splitMsg(rec.Msg)
+	if !strings.ContainsAny(first, "<&") {
+		return "hygiene"
+	}
+	passes := func(msg string) bool {
+		r2 := rec
+		r2.Msg = msg
+		p := r2.emit()
+		if len(p) != 1 {
+			return false
+		}
+		_, v := sgrScan(p[0])
+		return v == ""
+	}
+	noCR := strings.ReplaceAll(rec.Msg, "\r", "?")
+	noRef := strings.ReplaceAll(rec.Msg, "&#", "&_")
+	switch {
+	case noCR != rec.Msg && passes(noCR):
+		return "hygiene/markup+cr"
+	case noRef != rec.Msg && passes(noRef):
+		return "hygiene/markup+charref"
+	case noCR != rec.Msg && noRef != rec.Msg && passes(strings.ReplaceAll(noCR, "&#", "&_")):
+		return "hygiene/markup+cr+charref"
+	}
+	return "hygiene/markup"
+}
+
+func isCtl(c byte) bool { return c < 0x20 || c == 0x7f }
+
+// ctlProfile: the raw control bytes of a payload (ESC included), as a sorted histogram
+func ctlProfile(b []byte) string {
+	var n [256]int
+	for _, c := range b {
+		if isCtl(c) {
+			n[c]++
+		}
+	}
+	var sb strings.Builder
+	for c, k := range n {
+		if k > 0 {
+			fmt.Fprintf(&sb, "%02x*%d ", c, k)
+		}
+	}
+	return "[" + strings.TrimSpace(sb.String()) + "]"
+}
+
+// sanitizeValues replaces every control byte inside attribute VALUES (not keys) by '?'
+func sanitizeValues(as []GAttr) ([]GAttr, bool) {
+	changed := false
+	fix := func(x string) string {
+		bs := []byte(x)
+		for i, c := range bs {
+			if isCtl(c) {
+				bs[i] = '?'
+				changed = true
+			}
+		}
+		return string(bs)
+	}
+	out := make([]GAttr, len(as))
+	for i, a := range as {
+		out[i] = a
+		if a.Nil {
+			continue
+		}
+		v := a.Val
+		v.S = fix(v.S)
+		if v.Strs != nil {
+			ss := make([]string, len(v.Strs))
+			for j, x := range v.Strs {
+				ss[j] = fix(x)
+			}
+			v.Strs = ss
+		}
+		if v.Kind == "group" {
+			sub, ch := sanitizeValues(v.Items)
+			v.Items = sub
+			changed = changed || ch
+		}
+		out[i].Val = v
+	}
+	return out, changed
+}
+
 func msgInLayoutDomain(m string) bool {
 	for i := 0; i < len(m); i++ {
 		c := m[i]
@@ -146,8 +234,19 @@ func oracleColor(rec EncRec, payloads [][]byte) string {
 	}
 	b := payloads[0]
 	plain, hyg := sgrScan(b)
+	// attribute values never contribute raw escape or control bytes: the raw control bytes of the
+	// payload must not depend on the control bytes inside the values (differential, model-free)
+	if san, changed := sanitizeValues(rec.Attrs); changed {
+		r2 := rec
+		r2.Attrs = san
+		if p2 := r2.emit(); len(p2) == 1 {
+			if a, b2 := ctlProfile(b), ctlProfile(p2[0]); a != b2 {
+				return fmt.Sprintf("values: an attribute value contributes raw control bytes to the record (control bytes %s, with the values' control bytes replaced %s)", a, b2)
+			}
+		}
+	}
 	if !strings.Contains(rec.Msg, "\x1b") && hyg != "" {
-		return "hygiene: " + hyg
+		return hygieneClass(rec) + ": " + hyg
 	}
 	if !strings.HasSuffix(plain, "\n") {
 		return "framing: the record does not end with a newline"
@@ -234,7 +333,81 @@ func oracleColor(rec EncRec, payloads [][]byte) string {
 	return ""
 }
 
+// records the shared corpus does not have: markup with CR / character references / leading
+// blanks, and control bytes inside every kind of value that carries text
+func c06Corpus() []EncRec {
+	cfg := EncCfg{Mode: "color", Level: 4, TagWidth: 3, MinWidth: 36}
+	var out []EncRec
+	for _, m := range []string{"<b>bold</b>\rnext", "a & b\rc", "x &amp; y\r\nsecond line", "  lead <b>bold</b>", "   & blanks",
+		"a&#10;b", "a&#13;b", "a&#27;[2Jb", "a&#27;[31mb", "<u>under\nline</u>", "<font color=\"red\">r</font> tail", "<kbd>k</kbd>",
+		"first\n<b>rest is not translated</b>\r&#10;", "cr only\rno markup", "tab\tno markup"} {
+		out = append(out, EncRec{cfg, m, nil})
+	}
+	esc := "\x1b[31m"
+	for _, payload := range []string{esc, "\x1b[2J", "\x1b]0;title\a", "a\nb", "bell\a", "del\x7f"} {
+		for _, k := range []string{"string", "stringer", "error", "bytes", "struct", "map", "strs"} {
+			v := GVal{Kind: k, S: payload, I: 7}
+			if k == "strs" {
+				v = GVal{Kind: k, Strs: []string{"ok", payload}}
+			}
+			out = append(out, EncRec{cfg, "value with control bytes", []GAttr{{Key: "k", Val: v}}})
+		}
+		out = append(out, EncRec{cfg, "in a group", []GAttr{{Key: "g", Val: GVal{Kind: "group", Items: []GAttr{
+			{Key: "s", Val: GVal{Kind: "string", S: payload}}, {Key: "t", Val: GVal{Kind: "struct", S: payload, I: 1}}}}}}})
+		out = append(out, EncRec{cfg, "in a group", []GAttr{{Key: "g", Val: GVal{Kind: "group", Items: []GAttr{
+			{Key: "e", Val: GVal{Kind: "error", S: payload}}, {Key: "m", Val: GVal{Kind: "map", S: payload, I: 1}}}}}}})
+	}
+	return out
+}
+
 func runC06(r *Run) {
-	r.Rule = "corpus + random records in colour mode: all severities incl. registered and unregistered, tag widths 1..5, minimal widths 16/36/50, single/multi-line messages with and without trailing newline, all value kinds incl. errors and groups; byte-exact comparison with the model; direct oracle = SGR state simulator (all colours off at every LF and at the end, no foreign escape/control byte) and the layout of the statement parsed from the text with SGR removed (layout only for messages without <,>,& and control characters other than LF); non-trivial = a byte needing escape, a group or a multi-line message; distinct by record"
-	runEncoder(r, "C06", "color", "Verif.Corr.C06", EncProfile{KeyClass: 1, TextClass: 2, MaxDepth: 4, MaxAttrs: 8, LegalKeys: true}, oracleColor, 500, 10000)
+	r.Rule = "corpus (shared encoder corpus + markup with CR / character references / leading blanks + control bytes inside every text-carrying value kind) + random records in colour mode: all severities incl. registered and unregistered, tag widths 1..5, minimal widths 16/36/50, single/multi-line messages with and without trailing newline, all value kinds incl. errors and groups; byte-exact comparison with the model, and on every record in the domain of the theorems their conclusions are evaluated on the OBSERVED bytes (hygienic, strip_sgr = layout_of); direct oracle = SGR state simulator (all colours off at every LF and at the end, no foreign escape), a differential test that the raw control bytes of the payload do not depend on the control bytes inside attribute values, and the layout of the statement parsed from the text with SGR removed (layout only for messages without <,>,& and control characters other than LF); non-trivial = a byte needing escape, a group or a multi-line message; distinct by record"
+	// note (outside the quantifier: widths 1..5): SetLevelOutputWidth(0) is accepted, then every coloured record panics
+	func() {
+		snap := slog.VerifSnapshot()
+		defer resetProcess(snap)
+		defer func() {
+			if e := recover(); e != nil {
+				r.Extra["note_tag_width_0"] = fmt.Sprintf("SetLevelOutputWidth(0) is accepted, then a coloured record panics: %v", e)
+			}
+			slog.SetLevelOutputWidth(3)
+		}()
+		encSetup(snap)
+		p := EncRec{EncCfg{Mode: "color", Level: 4, TagWidth: 0, MinWidth: 36}, "m", nil}.emit()
+		r.Extra["note_tag_width_0"] = fmt.Sprintf("SetLevelOutputWidth(0): no panic, payload %q", p)
+	}()
+	prof := EncProfile{KeyClass: 1, TextClass: 2, MaxDepth: 4, MaxAttrs: 8, LegalKeys: true}
+	// same procedure as the shared runEncoder, with the extra corpus in front
+	snap := slog.VerifSnapshot()
+	encSetup(snap)
+	r.ShardSize = 150
+	runeSet := map[rune]bool{}
+	nHyg, nLay := 0, 0
+	one := func(rec EncRec, kind string) {
+		encOne(r, "C06", rec, oracleColor, kind, runeSet)
+		if !strings.Contains(rec.Msg, "\x1b") {
+			nHyg++
+		}
+		if msgInLayoutDomain(rec.Msg) {
+			nLay++
+		}
+	}
+	for _, rec := range c06Corpus() {
+		one(rec, "corpus")
+	}
+	for _, rec := range encCorpus("color", prof) {
+		one(rec, "corpus")
+	}
+	for i := r.N(500, 10000); i > 0; i-- {
+		pp := prof
+		if r.Thorough() && r.R.Chance(30) {
+			pp.MaxDepth = 8
+		}
+		one(genEncRec(r.R, "color", pp), "random")
+	}
+	r.Extra["records_without_escape_in_message"] = nHyg
+	r.Extra["records_in_layout_domain"] = nLay
+	r.Coq("Require Import Verif.Model.Base Verif.Model.Mode Verif.Model.Attrs Verif.Corr.Enc Verif.Corr.C06.", "Enc.ecase", "(ok isp)")
+	r.Prelude(isprintPrelude(runeSet))
+	resetProcess(snap)
 }
